@@ -671,7 +671,9 @@ TXT_BAD = [",", ":", "\n", "\r"]
 
 
 def txt_ok(name):
-    return name != "" and name == name.strip() and not any(ch in name for ch in [",", ":", "\n", "\r", "\x0b", "\x0c", "\x1c", "\x1d", "\x1e", "\x85", "\u2028", "\u2029"])
+    # exactly the names the format can represent (= the model's `nameOK`): non-empty, nothing for
+    # strip() to remove, no comma, no colon, no line break of the text-mode reader
+    return name != "" and name == name.strip() and not any(ch in name for ch in [",", ":", "\n", "\r"])
 
 
 def gen_rt(rng, N, nmax=6, faults=None):
@@ -687,7 +689,8 @@ def gen_rt(rng, N, nmax=6, faults=None):
         n = g["n"]
         style = rng.choice(["v", "letters", "unicode", "long", "blanks", "digits", "mixed", "hostile"])
         if style == "hostile":
-            pool = ["a,b", "x:y", " lead", "trail ", "VERTICES: z", "GRAPH_EDGE", "---DEGREES---", "é, ü", "tab\tin", "q\"uote", "{brace}", "[1, 2]", "null", "-", "--", "0", "-0", "1e3", "DEGREE: a, 1", "EDGE: a, b, 1", "#", "日本", "a b c"]
+            pool = ["a,b", "x:y", " lead", "trail ", "VERTICES: z", "GRAPH_EDGE", "---DEGREES---", "é, ü", "tab\tin", "q\"uote", "{brace}", "[1, 2]", "null", "-", "--", "0", "-0", "1e3", "DEGREE: a, 1", "EDGE: a, b, 1", "#", "日本", "a b c",
+                    "a\x0bb", "c\x1cd", "e\x85f", "g\u2028h", "i\x0cj"]     # separators of str.splitlines inside a name: one line for a text-mode reader
             names = sorted(rng.sample(pool, n)) if n <= len(pool) else gen.gen_names(rng, n)
         else:
             names = gen.gen_names(rng, n, style=style)
@@ -976,10 +979,11 @@ def gen_txt_read(rng, N):
     WS = [" ", "\t", " ", " ", "\x1f", "\x0c"]
     for _ in range(N):
         kind = rng.choice(list(P))
-        wkind = kind if rng.random() < 0.9 else rng.choice(list(P))      # sometimes a file of another kind
+        clean = rng.random() < 0.4          # a file exactly as the writer produces it (any lists, representable names)
+        wkind = kind if (clean or rng.random() < 0.9) else rng.choice(list(P))      # sometimes a file of another kind
         pv, pe, marker, pr = P[wkind]
         n = rng.choice([0, 1, 2, 3, 3, 4, 5])
-        style = rng.choice(["v", "letters", "unicode", "blanks", "digits", "mixed", "hostile"])
+        style = rng.choice(["v", "letters", "unicode", "blanks", "digits", "mixed", "hostile"] if not clean else ["v", "letters", "unicode", "blanks", "digits", "hyphen", "concat"])
         if style == "hostile":
             pool = ["a,b", "x:y", " lead", "trail ", "VERTICES: z", "GRAPH_EDGE", "---DEGREES---", "tab\tin", "-", "0", "-0", "1e3",
                     "DEGREE: a, 1", "EDGE", "EDGE: a, b, 1", "#", "日本", "a b c", "FIRING", "q\"uote"]
@@ -999,7 +1003,7 @@ def gen_txt_read(rng, N):
                     lines.append(f"{pr} {nm}, {rng.choice(some)}")
                 else:
                     lines.append(f"{pr} {nm}, {rng.randint(-mag, mag)}")
-        muts = rng.choice([0, 0, 1, 1, 2, 3])
+        muts = 0 if clean else rng.choice([0, 0, 1, 1, 2, 3])
         for _m in range(muts):
             r = rng.randrange(12)
             i = rng.randrange(len(lines)) if lines else 0
@@ -1032,17 +1036,21 @@ def gen_txt_read(rng, N):
                 lines[i] = lines[i] + rng.choice([", extra", ",", ", "])
             elif r == 11 and lines and ", " in lines[i]:
                 lines[i] = lines[i].rsplit(", ", 1)[0]
-        nl = rng.choice(["\n", "\n", "\n", "\r\n", "\r", "mixed"])
+        nl = "\n" if clean else rng.choice(["\n", "\n", "\n", "\r\n", "\r", "mixed"])
         text = ""
         for k, l in enumerate(lines):
             text += l + (rng.choice(["\n", "\r\n", "\r", "\n\n", "\n \n"]) if nl == "mixed" else nl)
-        if text and rng.random() < 0.15:
+        if text and not clean and rng.random() < 0.15:
             text = text.rstrip("\r\n")
-        if rng.random() < 0.05:
+        if not clean and rng.random() < 0.05:
             text = text[: rng.randrange(len(text) + 1)]
         if any(("\ud800" <= ch <= "\udfff") for ch in text):
             continue
-        out.append({"op": "txt_read", "kind": kind, "text": text, "_kind": kind, "_style": style, "_wkind": wkind, "_muts": muts, "_nl": nl, "n": n})
+        cut = False
+        pinned = (muts == 0 and wkind == kind and nl == "\n" and style != "hostile" and all(txt_ok(nm) for nm in names)
+                  and text.endswith("\n"))
+        out.append({"op": "txt_read", "kind": kind, "text": text, "_kind": kind, "_style": style, "_wkind": wkind, "_muts": muts, "_nl": nl, "n": n,
+                    "_pinned": pinned})
     return out
 
 
